@@ -139,7 +139,8 @@ class MediaList(css_parser.util._NewListBase):
             for item in seq:
                 # filter for doubles?
                 if item.type == 'MediaQuery':
-                    mediaType = item.value.mediaType
+                    # media types are compared normalized ("print, PRINT")
+                    mediaType = normalize(item.value.mediaType)
                     if mediaType:
                         if mediaType == 'all':
                             # remove anthing else and keep all+comments(!) only
